@@ -71,8 +71,16 @@ SPECS = {
              "subst": {"1j * x * a": "(u * a)", "(x * sigma) ** 2": "(- (u * sigma) ^ 2)", "self.levy_exponent_pure_jump(1j * x)": "(pj u)"}},
             {"kind": "return_rhs", "file": LEVY, "py": "LevyModel.characteristic_function", "coq": "levy_mgf",
              "args": [("t", "R"), ("kappa_u", "R")], "ret": "R", "subst": {"self.levy_exponent(x)": "kappa_u"}},
+            # omega: exponent_at_minus_i = complex(levy_exponent(x=-1j)) is kappa(1) on the real reading; the constructor raises
+            # ValueError when it is not finite or not real (exp_omega_raises), otherwise omega = -exponent_at_minus_i.real
+            {"kind": "assign_rhs", "file": EXPLEVY, "py": "ExponentialOfLevyModel.__init__", "target": "exponent_at_minus_i",
+             "coq": "exp_exponent_at_minus_i", "args": [("kappa", "R -> R")], "ret": "R",
+             "subst": {"complex(levy_model.levy_exponent(x=-1j))": "(kappa 1)"}},
+            {"kind": "raise_test", "file": EXPLEVY, "py": "ExponentialOfLevyModel.__init__", "coq": "exp_omega_raises",
+             "args": [("finite1", "bool"), ("z_re", "R"), ("z_im", "R")], "ret": "bool",
+             "subst": {"np.isfinite(exponent_at_minus_i)": "finite1", "exponent_at_minus_i.imag": "z_im", "exponent_at_minus_i.real": "z_re"}},
             {"kind": "assign_rhs", "file": EXPLEVY, "py": "ExponentialOfLevyModel.__init__", "target": "self.omega", "coq": "exp_omega",
-             "args": [("kappa", "R -> R")], "ret": "R", "subst": {"levy_model.levy_exponent(x=-1j).real": "(kappa 1)"}},
+             "args": [("z_re", "R")], "ret": "R", "subst": {"exponent_at_minus_i.real": "z_re"}},
             {"kind": "assign_rhs", "file": EXPLEVY, "py": "ExponentialOfLevyModel.log_characteristic_function", "target": "drift",
              "coq": "exp_drift", "args": [("r", "R"), ("d", "R"), ("omega", "R")], "ret": "R",
              "attrs": {"self.r": "r", "self.d": "d", "self.omega": "omega"}},
